@@ -20,6 +20,8 @@ ASSUMPTIONS = ['CPython str semantics', 'the model driver is the compiled form o
                'groups is read as a further argument: documented brace-bracket-brace order, outside this domain)',
                'attaching separators: blanks with at most one line break; detaching: blank line, punctuation, '
                'comment, \\\\']
+LEAN_TARGETS = LEAN_TARGETS + ['TexSoupProofs.Properties.AllInputs2']
+THEOREMS = THEOREMS + ['TexSoup.C09.command_args_shape_anywhere']
 LEAN_TARGETS = LEAN_TARGETS + ['TexSoupProofs.Properties.TableSpec']
 # entries of the generated tables that the property's statement names (they stop compiling when a table edit drops them)
 THEOREMS = THEOREMS + ['TexSoup.TableSpec.' + n for n in ['starred_names_are_open', 'ordinary_names_are_open', 'spacer_chars', 'end_of_line_chars']]
